@@ -101,6 +101,8 @@ enum Fs {
     Span,
     TwiceSpan,
     WrongSign,
+    /// 0.9999 of the span: the piece left for the second step is a ten-thousandth of the interval
+    AlmostSpan,
 }
 #[derive(Clone, Copy, Debug, PartialEq)]
 enum Ms {
@@ -244,8 +246,9 @@ pub fn run_check(replay: Option<Value>) -> i32 {
     let thorough = is_thorough();
     // (0.3: fl(0.3 + 1e-12) - 0.3 is 9.99978e-13, strictly below the nominal span)
     let x0s: Vec<f64> = if thorough { vec![0.0, 1.0, -1e3, 0.3, 1e6] } else { vec![0.0, 1.0, -1e3, 0.3] };
-    let spans: Vec<f64> = vec![1e-12, 1e-9, 1e-3, 1.0, 1e3, 1e9, f64::INFINITY];
-    let fss = [Fs::None, Fs::Seventh, Fs::Span, Fs::TwiceSpan, Fs::WrongSign];
+    // (1e200: squares of the abscissae overflow)
+    let spans: Vec<f64> = vec![1e-12, 1e-9, 1e-3, 1.0, 1e3, 1e9, 1e200, f64::INFINITY];
+    let fss = [Fs::None, Fs::Seventh, Fs::Span, Fs::TwiceSpan, Fs::WrongSign, Fs::AlmostSpan];
     let mss = [Ms::None, Ms::Inf, Ms::Quarter, Ms::Odd, Ms::FiveSpan];
     let evs = [Ev::None, Ev::NonTerminal, Ev::Terminal, Ev::TerminalPair];
     let tols: Vec<f64> = if thorough { vec![1e-3, 1e-8] } else { vec![1e-3] };
@@ -283,6 +286,11 @@ pub fn run_check(replay: Option<Value>) -> i32 {
         if infinite && m == Method::RK4 && (fs == Fs::None || fs == Fs::WrongSign) {
             return None; // RK4's fixed step cannot be derived from an infinite span
         }
+        if span == 1e200 && m == Method::RADAU {
+            // Radau's complex linear system has entries of size 1/h: on this span their squares underflow in the
+            // naive complex division (known finding D38), the run crawls; it is exercised once, below
+            return None;
+        }
         if pk == 0 && span > 1.0 && !infinite {
             return None; // the unscaled unit-rate problem is only meant for short spans (it is stiff over 1e3+)
         }
@@ -295,6 +303,7 @@ pub fn run_check(replay: Option<Value>) -> i32 {
             Fs::Span => Some(dir * nominal),
             Fs::TwiceSpan => Some(dir * 2.0 * nominal),
             Fs::WrongSign => Some(-dir * nominal / 7.0),
+            Fs::AlmostSpan => Some(dir * 0.9999 * nominal),
         };
         c.max_step = match ms {
             Ms::None => None,
@@ -480,6 +489,27 @@ pub fn run_check(replay: Option<Value>) -> i32 {
             out.sample = Some(desc);
             Some(out)
         });
+    }
+    // Radau over [0, 1e200] (excluded from the lattice above): one run with a budget of 20 000 steps; the interval is
+    // covered in a few hundred steps by BDF and by Radau itself up to 1e150
+    if only.is_none() || only.as_deref() == Some("radau-huge-span") {
+        let p = problem(1, 0.0, 1e200);
+        let mut c = Cfg::new(Method::RADAU, 0.0, 1e200, &p.y0).tol(1e-3, 1e-6);
+        c.user_jac = true;
+        c.max_steps = Some(20_000);
+        c.budget = 3_000_000;
+        let r = run(&p, &c);
+        rep.evaluations += 1;
+        rep.validated += 1;
+        rep.transitions += r.st.n_ode;
+        let ok = r.sol().map(|s| s.status == Status::Success && s.t.last().map(|t| t.to_bits()) == Some(1e200f64.to_bits())).unwrap_or(false);
+        if !ok {
+            rep.violations.push(
+                Violation::new("radau-huge-span", "huge-span", format!("RADAU on the oscillator scaled to [0, 1e200] with a budget of 20000 steps: {} after {} steps, last sample {:?}", r.outcome_name(), r.sol().map(|s| s.nstep).unwrap_or(0), r.sol().and_then(|s| s.t.last().copied())), json!({"key": "radau-huge-span"}))
+                    .with("method", "RADAU")
+                    .with("span", "1e200"),
+            );
+        }
     }
     if only.is_none() {
         rep.violations.extend(regress::violations_for("C03"));
